@@ -154,41 +154,76 @@ func checkStrictMirror(c *core.Ctx) {
 		}
 		c.SawFunc(key)
 		info := fn.Info()
-		// find: if X.Strict { for i := range ARGS { if COND { EFFECT } } }
+		// find the strict-null loop: a loop over the call's Arguments whose body tests Null.Is(argument type), reached
+		// only for strict descriptors — `if X.Strict { for … }` or `if !X.Strict { return }` before it — in the
+		// function itself or in a helper it was moved to
 		var found *ast.IfStmt
 		var rng *ast.RangeStmt
-		ast.Inspect(fn.Decl.Body, func(n ast.Node) bool {
-			is, ok := n.(*ast.IfStmt)
-			if !ok || found != nil {
-				return true
+		for _, bf := range helperClosureBound(p, fn) {
+			bf := bf
+			if found != nil {
+				break
 			}
-			sel, ok := core.Unparen(is.Cond).(*ast.SelectorExpr)
-			if !ok || sel.Sel.Name != "Strict" || len(is.Body.List) != 1 {
+			core.WalkStack(bf.fn.Decl.Body, func(n ast.Node, stack []ast.Node) bool {
+				r, ok := n.(*ast.RangeStmt)
+				if !ok || found != nil || !strings.HasSuffix(resolveText(core.ExprStr(r.X), bf.binds), ".Arguments") {
+					return true
+				}
+				var inner *ast.IfStmt
+				ast.Inspect(r.Body, func(m ast.Node) bool {
+					if is, ok := m.(*ast.IfStmt); ok && inner == nil && strings.Contains(core.ExprStr(is.Cond), "Null.Is(") {
+						inner = is
+					}
+					return true
+				})
+				if inner == nil {
+					return true
+				}
+				guarded := false
+				for _, anc := range stack {
+					if is, ok := anc.(*ast.IfStmt); ok {
+						if sel, ok := core.Unparen(is.Cond).(*ast.SelectorExpr); ok && sel.Sel.Name == "Strict" {
+							guarded = true
+						}
+					}
+				}
+				for _, cnd := range bf.conds {
+					if strings.HasSuffix(cnd, ".Strict") {
+						guarded = true // the helper is only called for strict descriptors
+					}
+				}
+				if !guarded {
+					// early exit for non-strict descriptors earlier in the same function
+					ast.Inspect(bf.fn.Decl.Body, func(m ast.Node) bool {
+						is, ok := m.(*ast.IfStmt)
+						if !ok || is.Pos() > r.Pos() {
+							return true
+						}
+						if ue, ok := core.Unparen(is.Cond).(*ast.UnaryExpr); ok && ue.Op == token.NOT {
+							if sel, ok := core.Unparen(ue.X).(*ast.SelectorExpr); ok && sel.Sel.Name == "Strict" && len(is.Body.List) > 0 {
+								switch is.Body.List[len(is.Body.List)-1].(type) {
+								case *ast.ReturnStmt, *ast.BranchStmt:
+									guarded = true
+								}
+							}
+						}
+						return true
+					})
+				}
+				if guarded {
+					found, rng = inner, r
+					info = bf.fn.Info()
+				}
 				return true
-			}
-			r, ok := is.Body.List[0].(*ast.RangeStmt)
-			if !ok || len(r.Body.List) != 1 {
-				return true
-			}
-			inner, ok := r.Body.List[0].(*ast.IfStmt)
-			if !ok {
-				return true
-			}
-			found, rng = inner, r
-			return false
-		})
+			})
+		}
 		if found == nil {
 			c.Unknown("MIR4", key, fn.Decl.Pos(), "no `if ….Strict { for i := range args { if … } }` block found")
 			continue
 		}
-		if !strings.HasSuffix(core.ExprStr(rng.X), ".Arguments") {
-			c.Bad("MIR4", key+"/range", rng.Pos(), 1, "the strict-null loop must range over the call's Arguments, ranges over "+core.ExprStr(rng.X))
-		}
-		idx := ""
-		if id, ok := rng.Key.(*ast.Ident); ok {
-			idx = id.Name
-		}
-		// truth table of the guard over the relation Null.Is(arg.Type)
+		// the loop body is interpreted once per value of Null.Is(argument type): the effect (recording the argument's
+		// index for a runtime NULL check / making the output type nullable) must happen exactly for TypeRelationIs —
+		// however the body spells it (guard + effect, or `if … != Is { continue }` + effect)
 		relNames := map[string]int64{}
 		sc := p.Pkg("octosql").Types.Scope()
 		for _, n := range []string{"TypeRelationIsnt", "TypeRelationMaybe", "TypeRelationIs"} {
@@ -197,63 +232,83 @@ func checkStrictMirror(c *core.Ctx) {
 				relNames[n] = v
 			}
 		}
-		table := ""
-		okArg := true
+		idx, val := "", ""
+		if id, ok := rng.Key.(*ast.Ident); ok {
+			idx = id.Name
+		}
+		if id, ok := rng.Value.(*ast.Ident); ok {
+			val = id.Name
+		}
+		table, effTable := "", ""
+		okArg, effectSeen := true, false
 		for _, rn := range []string{"TypeRelationIsnt", "TypeRelationMaybe", "TypeRelationIs"} {
 			in := &absint.Interp{Info: info, Prog: p}
 			in.Hooks.Call = func(st *absint.State, call *ast.CallExpr, callee string, recv absint.Val, args []absint.Val) (absint.Val, bool) {
-				if callee == "octosql.Type.Is" {
-					want := core.ExprStr(rng.X) + "[" + idx + "].Type"
-					if recv.Canon() != "octosql.Null" || len(args) != 1 || !strings.HasSuffix(args[0].Canon(), "["+idx+"].Type") || !strings.Contains(want, ".Arguments[") {
+				switch callee {
+				case "octosql.Type.Is":
+					ac := ""
+					if len(args) == 1 {
+						ac = args[0].Canon()
+					}
+					// the tested type is the current argument's: ARGS[i].Type or the range value's .Type
+					if recv.Canon() != "octosql.Null" || !(strings.HasSuffix(ac, "["+idx+"].Type") && idx != "" || val != "" && ac == val+".Type") {
 						okArg = false
 					}
 					return absint.Int(relNames[rn]), true
+				case "octosql.TypeSum":
+					if len(args) == 2 && (args[0].Canon() == "octosql.Null" || args[1].Canon() == "octosql.Null") {
+						st.Emit("EFFECT nullable", call.Pos())
+					}
+					return absint.S("SUM"), true
 				}
 				return nil, false
 			}
-			res, err := in.RunCond(found.Cond)
-			if err != nil || len(res) != 1 {
-				c.Unknown("MIR4", key+"/guard", found.Pos(), fmt.Sprint("cannot evaluate guard: ", err, len(res)))
+			outs, err := in.Run(&ast.FuncType{Params: &ast.FieldList{}}, nil, rng.Body, nil, "")
+			if err != nil || len(outs) == 0 {
+				c.Unknown("MIR4", key+"/guard", found.Pos(), fmt.Sprint("cannot interpret the loop body: ", err))
 				table = "?"
 				break
 			}
-			table += fmt.Sprintf("%s→%v ", strings.TrimPrefix(rn, "TypeRelation"), res[0].Value)
+			// the effect must happen on every path when the argument type admits NULL, and on none otherwise: a
+			// further condition in front of it (some paths with, some without) is a narrower guard than the mirror's
+			nWith, nAll := 0, 0
+			for _, o := range outs {
+				if o.Kind == "panic" {
+					continue
+				}
+				nAll++
+				hit := false
+				for _, e := range o.Events {
+					if s.effect == "nullable" && e.Name == "EFFECT nullable" {
+						hit = true
+					}
+					if s.effect == "nullcheck" && strings.HasPrefix(e.Name, "append") && len(e.Args) >= 1 && e.Args[len(e.Args)-1].Canon() == idx {
+						hit = true
+					}
+				}
+				if hit {
+					nWith++
+				}
+			}
+			happened := "false"
+			switch {
+			case nWith == nAll && nAll > 0:
+				happened = "true"
+				effectSeen = true
+			case nWith > 0:
+				happened = "on-some-paths"
+				effectSeen = true
+			}
+			table += fmt.Sprintf("%s→%v ", strings.TrimPrefix(rn, "TypeRelation"), happened)
+			effTable = table
 		}
 		if table == "?" {
 			continue
 		}
 		want := "Isnt→false Maybe→false Is→true "
-		c.Decide(table == want && okArg, "MIR4", key+"/guard", found.Pos(), 3, "guard: Strict ∧ Null.Is(arg[i].Type)==Is", "guard truth table over Null.Is(arg.Type) is "+table+"(expected "+want+") or it is not applied to Arguments[i].Type")
-		// effect
-		eff := core.ExprStr(found.Body)
-		switch s.effect {
-		case "nullable":
-			ok := false
-			ast.Inspect(found.Body, func(n ast.Node) bool {
-				if as, ok2 := n.(*ast.AssignStmt); ok2 && as.Tok == token.ASSIGN && len(as.Rhs) == 1 {
-					if call, ok3 := as.Rhs[0].(*ast.CallExpr); ok3 && p.CalleeName(info, call) == "octosql.TypeSum" && len(call.Args) == 2 {
-						a, b := core.ExprStr(call.Args[0]), core.ExprStr(call.Args[1])
-						l := core.ExprStr(as.Lhs[0])
-						if strings.HasSuffix(l, ".Type") && ((a == l && b == "octosql.Null") || (b == l && a == "octosql.Null")) {
-							ok = true
-						}
-					}
-				}
-				return true
-			})
-			c.Decide(ok, "MIR4", key+"/effect", found.Body.Pos(), 1, "output type := TypeSum(output type, Null)", "the guarded block does not make the output type nullable: "+eff)
-		case "nullcheck":
-			ok := false
-			ast.Inspect(found.Body, func(n ast.Node) bool {
-				if as, ok2 := n.(*ast.AssignStmt); ok2 && len(as.Rhs) == 1 {
-					if call, ok3 := as.Rhs[0].(*ast.CallExpr); ok3 && core.ExprStr(call.Fun) == "append" && len(call.Args) == 2 && core.ExprStr(call.Args[1]) == idx && core.ExprStr(call.Args[0]) == core.ExprStr(as.Lhs[0]) {
-						ok = true
-					}
-				}
-				return true
-			})
-			c.Decide(ok, "MIR4", key+"/effect", found.Body.Pos(), 1, "nullCheckIndices = append(nullCheckIndices, i)", "the guarded block does not record the argument index for a null check: "+eff)
-		}
+		c.Decide(table == want && okArg, "MIR4", key+"/guard", found.Pos(), 3, "effect ⇔ Strict ∧ Null.Is(arg[i].Type)==Is", "the effect happens for Null.Is(arg.Type) = "+table+"(expected "+want+") or the test is not applied to the current argument's type")
+		what := map[string]string{"nullable": "output type := TypeSum(output type, Null)", "nullcheck": "the argument's index is appended to the null-check positions"}[s.effect]
+		c.Decide(effectSeen, "MIR4", key+"/effect", found.Body.Pos(), 1, what, "no path through the loop body has the effect ("+what+"): "+effTable)
 		results[s.effect] = table
 	}
 	c.Floor("MIR4", 4, "guard + effect at both sites")
